@@ -336,6 +336,20 @@ def run(chk, tier):
             chk.expect(armed, "delimitation", "DataSetReader::next", f"{v}-arms-check", "self.delimiter_check_pending = true in the block that emits the value token", armed, loc=f"{he['loc']['f']}:{x[1]}")
             n_val += 1
     chk.floor("delimitation", "value token sites", n_val, 3)
+    # every decoded delimiter that closes an item or sequence arms the check too: the enclosing explicit-length item / sequence may end right there
+    from . import c06
+    rows = c06.outcome_rows(he, "DataToken")
+    n_close = 0
+    for k, eff in sorted(rows.items()):
+        if not any(e in ("token:ItemEnd", "token:SequenceEnd") for e in eff):
+            continue
+        n_close += 1
+        if k == "encap/SequenceDelimiter":
+            chk.ok("delimitation", "DataSetReader::next", f"{k}-arms-check", "audited: a pixel data element without any item (not even the basic offset table) is not a canonical stream; neither reader arms the check there")
+            continue
+        chk.expect(any(e.startswith("delimiter_check_pending=true") and "?[" not in e for e in eff), "delimitation", "DataSetReader::next", f"{k}-arms-check",
+                   "self.delimiter_check_pending = true when a decoded delimiter closes an item / sequence", eff, loc=f"{he['loc']['f']}:{he['loc']['l']}")
+    chk.floor("delimitation", "closing-delimiter outcomes", n_close, 4)
 
     # ------------------------------------------------------------------ 4
     chk.rule("default-codec", "DefaultCharacterSetCodec::{decode,encode} use the same single-byte total encoding; the encoder is strict")
